@@ -4,6 +4,7 @@ import CookModel.Lemmas.LexLaws
 import CookModel.Lemmas.Spans
 import CookModel.Lemmas.SpansDoc
 import CookModel.Lemmas.SpansFront
+import CookModel.Lemmas.SpansMeta
 /-
   C04  Every reported source location is in bounds, on char boundaries, faithful.
 
@@ -245,5 +246,14 @@ theorem C04_events_in_source_order {α : Type} [Arith α] (cs : CharSpec) (ext :
     SrcOrdered (pullEvents (α := α) cs ext s).1.toList := by
   obtain ⟨b, h⟩ := pullEvents_topInv (α := α) cs ext s (frontMatterOffsetsOK cs s)
   exact h.ord
+
+/-- The same for the metadata-only scanner (`into_meta_iter`): every span of every event and
+    diagnostic it produces is inside the input on character boundaries, texts are faithful, and
+    the metadata entries appear in source order. -/
+theorem C04_meta_event_spans_ok {α : Type} [Arith α] (cs : CharSpec) (ext : Ext) (s : List Char) :
+    (∀ ev ∈ (pullMetaEvents (α := α) cs ext s).1.toList, EvSpansOK 0 s ev) ∧
+    SrcOrdered (pullMetaEvents (α := α) cs ext s).1.toList := by
+  obtain ⟨b, h⟩ := pullMetaEvents_topInv (α := α) cs ext s
+  exact ⟨h.ok, h.ord⟩
 
 end Cook
